@@ -1,5 +1,6 @@
 """C15 — generated message types carry exactly the generic parameters they use."""
 import json
+import re
 
 from .. import families_extra, inproc_engine, render, spec
 from ..families import build_family
@@ -9,6 +10,23 @@ from . import c01, c02
 MSG_OF = render.MSG_OF
 KINDS_C = ["instantiate", "exec", "query", "sudo", "migrate"]
 KINDS_I = ["exec", "query", "sudo"]
+
+
+def split_top(text):
+    """Splits a generic argument list at top-level commas."""
+    out, depth, cur = [], 0, ""
+    for ch in text:
+        if ch == "<":
+            depth += 1
+        elif ch == ">":
+            depth -= 1
+        if ch == "," and depth == 0:
+            out.append(cur)
+            cur = ""
+        else:
+            cur += ch
+    out.append(cur)
+    return out
 
 
 def observe(ctx, progs, label):
@@ -72,6 +90,28 @@ def observe(ctx, progs, label):
                     al = aliases.get(MSG_OF[k])
                     if al is None or al["generics"]["params"] != got:
                         ctx.violate("alias-params", f"{p['name']}: alias {MSG_OF[k]} of {tname} has parameters {al and al['generics']['params']}", d)
+            # the Api impls name every message type with its arguments in the type's own parameter order
+            for it in r["view"]:
+                if it["k"] != "impl" or not re.search(r"(ContractApi|InterfaceMessagesApi|InterfaceApi)\s*$", it.get("trait") or ""):
+                    continue
+                for tl in it["types"]:
+                    m_ = re.match(r"type (\w+) = (\w+) < (.*)> ;$", tl.strip())
+                    if not m_:
+                        continue
+                    alias_name, target, args = m_.group(1), m_.group(2), m_.group(3)
+                    kind_of = {v: k for k, v in MSG_OF.items()}
+                    if target not in kind_of or kind_of[target] not in obs[part["id"]]:
+                        continue
+                    names = [a.strip().split("::")[-1].strip() for a in split_top(args) if a.strip()]
+                    want = obs[part["id"]][kind_of[target]]
+                    ctx.ev()
+                    if names != want:
+                        ctx.violate("api-argument-order", f"{p['name']}: `{it['trait']}` for `{it['self_ty'][:40]}` names {target}<{', '.join(names)}> but the type is declared {target}<{', '.join(want)}>",
+                                    {"prog": p["name"], "part": part["id"], "impl": it["trait"], "self": it["self_ty"], "line": tl, "declared": want})
+                        ok = False
+                    elif len(want) >= 2:
+                        ctx.nontrivial([p["name"], part["id"], it["trait"][-24:], target, want])
+                        ctx.count("api_aliases_with_two_or_more_arguments")
             if part["id"] == "c":
                 allg = ([p["lifetime"]] if p.get("lifetime") else []) + [g["name"] for g in p.get("generics", [])]
                 for wk in ("ContractExecMsg", "ContractQueryMsg", "ContractSudoMsg"):
